@@ -131,6 +131,11 @@ type absTx struct {
 const (
 	gasTransfer = 1000
 	gasBurn     = 1000
+	gasEscrow   = 1300
+	gasAllow    = 1100
+	gasWithdraw = 1200
+	minDeleg    = 10
+	maxAllow    = 8
 	gasByte     = 1
 	minTransfer = 10
 )
@@ -156,6 +161,7 @@ func init() {
 type ref struct {
 	nonce map[string]uint64
 	bal   map[string]uint64
+	alw   map[string]map[string]uint64 // owner -> beneficiary -> allowance (no zero entries)
 	p     *plan
 }
 
@@ -177,7 +183,7 @@ func (r *ref) apply(a *absTx) (bool, bool) {
 	if r.p.maxTxSize > 0 && uint64(a.Len) > r.p.maxTxSize {
 		return false, false
 	}
-	if !a.Env || !a.SigValid || a.Black || !a.TxOK || a.Method < 3 {
+	if !a.Env || !a.SigValid || a.Black || !a.TxOK || a.Method < 3 || a.Method > 8 {
 		return false, false
 	}
 	if a.Addr == resvKey.Address().String() {
@@ -218,14 +224,68 @@ func (r *ref) apply(a *absTx) (bool, bool) {
 	if !a.BodyOK {
 		return true, false
 	}
-	op := uint64(gasTransfer)
-	if a.Method == 4 {
-		op = gasBurn
-	}
+	op := map[int]uint64{3: gasTransfer, 4: gasBurn, 5: gasEscrow, 6: gasAllow, 8: gasAllow, 7: gasWithdraw}[a.Method]
 	if used+op > gasLimit {
 		return true, false
 	}
 	amt, fits := qU64(a.Amount)
+	resv := resvKey.Address().String()
+	switch a.Method {
+	case 5: // AddEscrow: only the delegator's general balance is tracked
+		if !fits || amt < minDeleg || (a.To != a.Addr && a.To == resv) || r.bal[a.Addr] < amt || r.bal[a.Addr]-amt < r.p.minTransact {
+			return true, false
+		}
+		r.bal[a.Addr] -= amt
+		return true, true
+	case 6, 8: // Allow
+		if !fits || a.To == resv || a.To == a.Addr {
+			return true, false
+		}
+		cur := r.alw[a.Addr][a.To]
+		nw := cur + amt
+		if a.Method == 8 {
+			nw = 0
+			if cur > amt {
+				nw = cur - amt
+			}
+		}
+		n := len(r.alw[a.Addr])
+		if cur == 0 && nw != 0 {
+			n++
+		}
+		if cur != 0 && nw == 0 {
+			n--
+		}
+		if n > maxAllow {
+			return true, false
+		}
+		if r.alw[a.Addr] == nil {
+			r.alw[a.Addr] = map[string]uint64{}
+		}
+		if nw == 0 {
+			delete(r.alw[a.Addr], a.To)
+		} else {
+			r.alw[a.Addr][a.To] = nw
+		}
+		return true, true
+	case 7: // Withdraw: the signer takes amt out of a.To
+		src := a.To
+		if !fits || amt < minTransfer || src == resv || src == a.Addr {
+			return true, false
+		}
+		cur := r.alw[src][a.Addr]
+		if cur == 0 || cur < amt || r.bal[src] < amt || r.bal[src]-amt < r.p.minTransact || r.bal[a.Addr]+amt < r.p.minTransact {
+			return true, false
+		}
+		if cur == amt {
+			delete(r.alw[src], a.Addr)
+		} else {
+			r.alw[src][a.Addr] = cur - amt
+		}
+		r.bal[src] -= amt
+		r.bal[a.Addr] += amt
+		return true, true
+	}
 	if !fits || amt < minTransfer || r.bal[a.Addr] < amt {
 		return true, false
 	}
@@ -433,6 +493,33 @@ func abstract(raw []byte, chain string) (*absTx, bool) {
 		if err := cbor.Unmarshal(tx.Body, &x); err == nil {
 			a.BodyOK = true
 			a.To = x.To.String()
+			a.Amount = x.Amount.Clone()
+		}
+	case staking.MethodAddEscrow:
+		a.Method = 5
+		var x staking.Escrow
+		if err := cbor.Unmarshal(tx.Body, &x); err == nil {
+			a.BodyOK = true
+			a.To = x.Account.String()
+			a.Amount = x.Amount.Clone()
+		}
+	case staking.MethodAllow:
+		a.Method = 6
+		var x staking.Allow
+		if err := cbor.Unmarshal(tx.Body, &x); err == nil {
+			a.BodyOK = true
+			a.To = x.Beneficiary.String()
+			a.Amount = x.AmountChange.Clone()
+			if x.Negative {
+				a.Method = 8
+			}
+		}
+	case staking.MethodWithdraw:
+		a.Method = 7
+		var x staking.Withdraw
+		if err := cbor.Unmarshal(tx.Body, &x); err == nil {
+			a.BodyOK = true
+			a.To = x.From.String()
 			a.Amount = x.Amount.Clone()
 		}
 	case staking.MethodBurn:
@@ -647,6 +734,16 @@ func buildPlan(seed uint64, nblocks, ntx int, g *muxdrv.Genesis, p *plan) {
 				f = muxdrv.Fee(0, muxdrv.DefaultGas)
 			}
 		}
+		switch r.Intn(24) {
+		case 0, 1:
+			return muxdrv.TxAddEscrow(nonce, f, g.Validators[r.Intn(len(g.Validators))].EntityAddress(), amt)
+		case 2, 3:
+			return muxdrv.TxAllow(nonce, f, to, false, amt)
+		case 4:
+			return muxdrv.TxAllow(nonce, f, to, true, amt/2)
+		case 5, 6:
+			return muxdrv.TxWithdraw(nonce, f, to, amt/2+5)
+		}
 		if r.Chance(25) {
 			return muxdrv.TxBurn(nonce, f, amt)
 		}
@@ -654,6 +751,87 @@ func buildPlan(seed uint64, nblocks, ntx int, g *muxdrv.Genesis, p *plan) {
 	}
 	refNonce := func(s *signer) uint64 { return rf.nonce[s.addr.String()] }
 	attacker := signers[8]
+	// ---- drain / re-fund / replay-everything machine (needs MinTransactBalance = 0) ----
+	// three funded accounts used for nothing else: a few ordinary transactions, then a Transfer or
+	// Burn of EXACTLY the remaining balance (fee zero or not), later a re-funding by somebody else
+	// with no transaction of the drained signer in between, then a replay of every transaction of
+	// that signer that ever executed.
+	type drainer struct {
+		s     *signer
+		phase int
+		left  int
+	}
+	var drainers []*drainer
+	for i := 6; i <= 8; i++ {
+		drainers = append(drainers, &drainer{s: &signer{key: g.Accounts[i].Key, addr: g.Accounts[i].Address, idx: i}, left: 1 + r.Intn(2)})
+	}
+	executedBy := map[string][][]byte{} // per signer address: byte strings that executed (reference)
+	var allExecuted [][]byte
+	var after func()
+	drainStep := func() []genTx {
+		d := drainers[r.Intn(len(drainers))]
+		da := d.s.addr.String()
+		switch d.phase {
+		case 0:
+			d.left--
+			if d.left <= 0 {
+				d.phase = 1
+			}
+			return []genTx{{Raw: muxdrv.Sign(d.s.key, muxdrv.TxTransfer(refNonce(d.s), okFee(), signers[r.Intn(6)].addr, uint64(r.Range(10, 900)))), Kind: "fresh"}}
+		case 1:
+			f := okFee()
+			if p.minGasPrice == 0 && r.Chance(50) {
+				f = muxdrv.Fee(0, muxdrv.DefaultGas)
+			}
+			fa, _ := qU64(&f.Amount)
+			bal := rf.bal[da]
+			if bal < fa+minTransfer {
+				d.phase = 2
+				return nil
+			}
+			var tx *transaction.Transaction
+			kind := "drain-to-zero"
+			after = func() {
+				if rf.bal[da] == 0 {
+					d.phase = 2
+				}
+			}
+			switch r.Intn(10) {
+			case 0, 1, 2:
+				tx = muxdrv.TxBurn(refNonce(d.s), f, bal-fa)
+			case 3, 4:
+				// emptied through the escrow path
+				kind = "drain-by-escrow"
+				tx = muxdrv.TxAddEscrow(refNonce(d.s), f, g.Validators[r.Intn(len(g.Validators))].EntityAddress(), bal-fa)
+			case 5, 6:
+				// emptied through the allowance path: the owner allows exactly what will be left,
+				// a beneficiary withdraws it (the allowance entry disappears with it)
+				ben := signers[r.Intn(4)]
+				return []genTx{
+					{Raw: muxdrv.Sign(d.s.key, muxdrv.TxAllow(refNonce(d.s), f, ben.addr, false, bal-fa)), Kind: "drain-allow"},
+					{Raw: muxdrv.Sign(ben.key, muxdrv.TxWithdraw(refNonce(ben), okFee(), d.s.addr, bal-fa)), Kind: "drain-by-withdraw"},
+				}
+			default:
+				tx = muxdrv.TxTransfer(refNonce(d.s), f, signers[r.Intn(6)].addr, bal-fa)
+			}
+			return []genTx{{Raw: muxdrv.Sign(d.s.key, tx), Kind: kind}}
+		case 2:
+			fu := signers[r.Intn(4)]
+			after = func() {
+				if rf.bal[da] > 0 {
+					d.phase = 3
+				}
+			}
+			return []genTx{{Raw: muxdrv.Sign(fu.key, muxdrv.TxTransfer(refNonce(fu), okFee(), d.s.addr, uint64(60_000+r.Intn(1000)))), Kind: "refund-drained"}}
+		default:
+			var out []genTx
+			for _, raw := range executedBy[da] {
+				out = append(out, genTx{Raw: raw, Kind: "replay-after-drain"})
+			}
+			d.phase, d.left = 0, 1+r.Intn(2)
+			return out
+		}
+	}
 	// splice: (blob', pk, sig) -- public key and signature of a genuine envelope of
 	// signer src on a different, never-signed, well-formed body carrying src's current nonce
 	splice := func(srcRaw []byte, src *signer) []byte {
@@ -686,7 +864,10 @@ func buildPlan(seed uint64, nblocks, ntx int, g *muxdrv.Genesis, p *plan) {
 			}
 			var add []genTx
 			k := r.Intn(100)
-			if sp := r.Intn(100); sp >= 10 && sp < 18 {
+			if dr := r.Intn(100); dr < 14 && p.minTransact == 0 {
+				k = -3
+				add = drainStep()
+			} else if sp := r.Intn(100); sp >= 10 && sp < 18 {
 				k = -2 // Ed25519 edge cases: small-order keys / commitments, non-canonical scalars
 				switch {
 				case sp < 15:
@@ -842,10 +1023,19 @@ func buildPlan(seed uint64, nblocks, ntx int, g *muxdrv.Genesis, p *plan) {
 						validPool = append(validPool, vsrc{t.Raw, sg})
 					}
 				}
-				if au, _ := rf.apply(a); au {
+				au, ok := rf.apply(a)
+				if au {
 					pool = append(pool, t.Raw)
 				}
+				if ok {
+					executedBy[a.Addr] = append(executedBy[a.Addr], t.Raw)
+					allExecuted = append(allExecuted, t.Raw)
+				}
 				blk = append(blk, t)
+			}
+			if after != nil {
+				after()
+				after = nil
 			}
 			if k == -1 && len(add) == 1 && add[0].Kind == "fresh" && r.Chance(80) {
 				// ... and now its spliced copy, in the same block
@@ -856,13 +1046,20 @@ func buildPlan(seed uint64, nblocks, ntx int, g *muxdrv.Genesis, p *plan) {
 				blk = append(blk, t)
 			}
 		}
+		// systematic replays: a sample of ALL envelopes that ever executed, at the end of every block
+		for j := 0; j < 2 && len(allExecuted) > 0; j++ {
+			t := genTx{Raw: allExecuted[r.Intn(len(allExecuted))], Kind: "replay-systematic"}
+			a, _ := abstract(t.Raw, chain)
+			rf.apply(a)
+			blk = append(blk, t)
+		}
 		p.blocks = append(p.blocks, blk)
 		p.restart = append(p.restart, b > 0 && r.Chance(40))
 	}
 }
 
 func newRef(g *muxdrv.Genesis, p *plan) *ref {
-	rf := &ref{nonce: map[string]uint64{}, bal: map[string]uint64{}, p: p}
+	rf := &ref{nonce: map[string]uint64{}, bal: map[string]uint64{}, alw: map[string]map[string]uint64{}, p: p}
 	for addr, acc := range g.Doc.Staking.Ledger {
 		b, _ := qU64(&acc.General.Balance)
 		rf.bal[addr.String()] = b
@@ -1010,15 +1207,13 @@ func runHistory(seed uint64, nblocks, ntx, upto int, drop [][2]int) (out *runOut
 				_ = cbor.Unmarshal(raw, &st)
 				addrOf[a.Addr] = staking.NewAddress(st.Signature.PublicKey)
 			}
-			if a.BodyOK && a.Method == 3 {
+			if a.BodyOK && (a.Method == 3 || a.Method >= 6) {
 				tracked[a.To] = true
-				var st transaction.SignedTransaction
-				var tx transaction.Transaction
-				var x staking.Transfer
-				_ = cbor.Unmarshal(raw, &st)
-				_ = cbor.Unmarshal(st.Blob, &tx)
-				_ = cbor.Unmarshal(tx.Body, &x)
-				addrOf[a.To] = x.To
+				var ad staking.Address
+				if err := ad.UnmarshalText([]byte(a.To)); err != nil {
+					panic(err)
+				}
+				addrOf[a.To] = ad
 			}
 		}
 		delete(tracked, resvKey.Address().String()) // reserved accounts cannot be queried (invalid account address)
@@ -1046,6 +1241,22 @@ func runHistory(seed uint64, nblocks, ntx, upto int, drop [][2]int) (out *runOut
 			return m
 		}
 		pre := query(disk)
+		var preAlw [][3]string
+		for _, a := range tl {
+			if acc, err := disk.Account(0, addrOf[a]); err == nil {
+				var bens []string
+				for bn := range acc.General.Allowances {
+					bens = append(bens, bn.String())
+				}
+				sort.Strings(bens)
+				for _, bn := range bens {
+					var ad staking.Address
+					_ = ad.UnmarshalText([]byte(bn))
+					q := acc.General.Allowances[ad]
+					preAlw = append(preAlw, [3]string{a, bn, q.String()})
+				}
+			}
+		}
 		// the state a restarted replica serves is the state the last block left
 		for a, v := range pre {
 			if lp, ok := lastPost[a]; ok && lp != v {
@@ -1144,7 +1355,7 @@ func runHistory(seed uint64, nblocks, ntx, upto int, drop [][2]int) (out *runOut
 			nontriv = true
 		}
 		// ---- K: the case for the Coq model
-		coq := coqBlock(p, tl, pre, post, abs, classes, idOf)
+		coq := coqBlock(p, tl, pre, post, abs, classes, idOf, preAlw)
 		d := Desc{Mode: "deliver", Seed: seed, Blocks: nblocks, Txs: ntx, Block: b, Drop: drop}
 		for i, t := range gts {
 			d.Kinds = append(d.Kinds, t.Kind+"/"+classes[i])
@@ -1195,8 +1406,12 @@ func runHistory(seed uint64, nblocks, ntx, upto int, drop [][2]int) (out *runOut
 }
 
 // coqBlock renders one block as a case of Verif.Auth.Corr.run_block.
-func coqBlock(p *plan, tl []string, pre, post map[string][2]string, abs []*absTx, classes []string, idOf func(string) int) string {
+func coqBlock(p *plan, tl []string, pre, post map[string][2]string, abs []*absTx, classes []string, idOf func(string) int, preAlw [][3]string) string {
 	var idl, pn, pb, qn, qb, ks []string
+	// allowances of the tracked accounts before the block: key 2^40 + owner*2^20 + beneficiary
+	for _, e := range preAlw {
+		pb = append(pb, fmt.Sprintf("(%d, %s)", (1<<40)+idOf(e[0])*(1<<20)+idOf(e[1]), e[2]))
+	}
 	for _, a := range tl {
 		id := idOf(a)
 		idl = append(idl, strconv.Itoa(id))
@@ -1214,7 +1429,7 @@ func coqBlock(p *plan, tl []string, pre, post map[string][2]string, abs []*absTx
 			}
 			to, amt := 0, "0"
 			if a.BodyOK {
-				if a.Method == 3 {
+				if a.Method != 4 {
 					to = idOf(a.To)
 				}
 				amt = a.Amount.String()
@@ -1228,8 +1443,8 @@ func coqBlock(p *plan, tl []string, pre, post map[string][2]string, abs []*absTx
 		}
 		ks = append(ks, fmt.Sprintf("{| k_len := %d; k_env := %s; k_pk := %d; k_black := %s; k_small_a := %s; k_small_r := %s; k_sigvalid := %s; k_tx := %s |}", a.Len, coqout.Bool(a.Env), pk, coqout.Bool(a.Black), coqout.Bool(a.SmallA), coqout.Bool(a.SmallR), coqout.Bool(a.EqValid), txs))
 	}
-	params := fmt.Sprintf("{| p_max_tx_size := %d; p_min_transact := %d; p_min_transfer := %d; p_gas_byte := %d; p_gas_transfer := %d; p_gas_burn := %d; p_min_gas_price := %d; p_reserved := [%d] |}",
-		p.maxTxSize, p.minTransact, minTransfer, gasByte, gasTransfer, gasBurn, p.minGasPrice, idOf(resvKey.Address().String()))
+	params := fmt.Sprintf("{| p_max_tx_size := %d; p_min_transact := %d; p_min_transfer := %d; p_gas_byte := %d; p_gas_transfer := %d; p_gas_burn := %d; p_min_gas_price := %d; p_gas_escrow := %d; p_gas_allow := %d; p_gas_withdraw := %d; p_min_deleg := %d; p_max_allow := %d; p_reserved := [%d] |}",
+		p.maxTxSize, p.minTransact, minTransfer, gasByte, gasTransfer, gasBurn, p.minGasPrice, gasEscrow, gasAllow, gasWithdraw, minDeleg, maxAllow, idOf(resvKey.Address().String()))
 	return fmt.Sprintf("((%s, %s, %s, %s, %s), (%s, %s, %s))", params, coqout.List(idl), coqout.List(pn), coqout.List(pb), coqout.List(ks),
 		coqout.List(classes), coqout.List(qn), coqout.List(qb))
 }
@@ -1385,7 +1600,7 @@ func sweepBlock(d SweepDesc, sum *coqout.Summary) (coq string, viols []map[strin
 			viol(fmt.Sprintf("account %s after the block: implementation nonce/balance %v, reference %v", a, post[a], want))
 		}
 	}
-	coq = coqBlock(p, tl, pre, post, abs, classes, idOf)
+	coq = coqBlock(p, tl, pre, post, abs, classes, idOf, nil)
 	return
 }
 
@@ -1462,6 +1677,12 @@ func sweepMain(seed uint64, out string, stride, batch int, replay *SweepDesc) {
 
 func pick(o *runOut, key string) map[string]any {
 	if key == "" {
+		// prefer the most specific statement: something executed twice
+		for _, v := range o.violations {
+			if w, _ := v["what"].(string); strings.Contains(w, "executed twice") {
+				return v
+			}
+		}
 		if len(o.violations) > 0 {
 			return o.violations[0]
 		}
@@ -1490,6 +1711,8 @@ func shrink(v map[string]any, key string) map[string]any {
 	best := v
 	drop := append([][2]int{}, d.Drop...)
 	deadline := time.Now().Add(20 * time.Second)
+	w0, _ := v["what"].(string)
+	needTwice := strings.Contains(w0, "executed twice")
 	try := func(extra [][2]int) bool {
 		if time.Now().After(deadline) {
 			return false
@@ -1497,6 +1720,9 @@ func shrink(v map[string]any, key string) map[string]any {
 		t := append(append([][2]int{}, drop...), extra...)
 		o := runHistory(d.Seed, d.Blocks, d.Txs, d.Block, t)
 		if x := pick(o, key); x != nil {
+			if w, _ := x["what"].(string); needTwice && !strings.Contains(w, "executed twice") {
+				return false
+			}
 			drop = t
 			best = x
 			return true
@@ -1881,6 +2107,7 @@ func main() {
 		drop          [][2]int
 	}
 	sum.Extra["findings_seen"] = 0
+	var primaries, others []map[string]any
 	var jobs []job
 	if rd != nil {
 		jobs = []job{{rd.Seed, rd.Blocks, rd.Txs, rd.Block, rd.Drop}}
@@ -1916,16 +2143,30 @@ func main() {
 			addFinding(sum, o.findings[0], rd == nil)
 		}
 		if len(o.violations) > 0 {
-			v := o.violations[0]
-			if rd == nil {
-				v = shrink(v, "")
-			}
-			sum.Violations = append(sum.Violations, v)
-			for _, x := range o.violations[1:] {
-				if len(sum.Violations) < 5 {
-					sum.Violations = append(sum.Violations, x)
+			primaries = append(primaries, pick(o, ""))
+			for _, x := range o.violations {
+				if len(others) < 4 {
+					others = append(others, x)
 				}
 			}
+		}
+	}
+	// the reported violation: the most specific one of the whole run (some byte string or signed
+	// content executed twice, if any history shows it), shrunk; the others follow unshrunk
+	if len(primaries) > 0 {
+		best := primaries[0]
+		for _, v := range primaries {
+			if w, _ := v["what"].(string); strings.Contains(w, "executed twice") {
+				best = v
+				break
+			}
+		}
+		if rd == nil {
+			best = shrink(best, "")
+		}
+		sum.Violations = append(sum.Violations, best)
+		for _, x := range others {
+			sum.Violations = append(sum.Violations, x)
 		}
 	}
 	sum.Extra["stdlib_ed25519_verdict_differs"] = stdlibDiffers
